@@ -96,6 +96,29 @@ def gen_drops(rng):
             ops.append(f"ack {cur} {k} all")
     return with_stats(ops, rng)
 
+def gen_burst(rng):
+    """bursts of QoS 0 / QoS 1 publishes from two connections at the same moment to online subscribers whose readers are parked in
+    Queue.Read: the adder's and the reader's reports about one message race; at quiescence every gauge must equal the contents"""
+    ops = [f"new mode=onlyonce q0=1 maxq=1000 mi=100 se=7200"]
+    ops += ["conn p cp v=5 cs=1", "conn r cr v=4 cs=1"]
+    subs = ["s1", "s2"][: rng.choice([1, 2])]
+    for c in subs:
+        ops.append(f"conn {c} c{c} v={rng.choice([4, 5])} cs=1")
+        ops.append(f"sub {c} 1 t/#|{rng.choice([0, 0, 1])}")
+    pid = 0
+    n = {"p": 0, "r": 0}
+    for _ in range(rng.randint(2, 5)):
+        toks = []
+        for _ in range(rng.choice([20, 40, 60])):
+            c = rng.choice(["p", "r"]); n[c] += 1
+            q = rng.choice([0, 0, 0, 1])
+            pid += 1
+            toks.append(f"{c},t/a,{q},{pid if q else 0},{c}n{n[c]}")
+        ops.append("cpub " + " ".join(toks))
+        for c in subs:
+            ops.append(f"ack {c} puback all")
+    return with_stats(ops, rng)
+
 def gen_refused(rng):
     """the auth plugin refuses some CONNECTs: their packets (and what is sent on them afterwards) are booked under client id """""
     ops = ["new mode=onlyonce auth=plain", "api acct set u pw"]
@@ -453,7 +476,7 @@ def streams(tier):
     mk = lambda name, gen, k: (core.Stream(name, "stats", gen, predicate, nontrivial, canon=canon, keep_prefix=1, hint=hint,
                                            oracle_args=ORACLE_ARGS), k)
     return [mk("stats-session", gen_session, 180 * n), mk("stats-deliver", gen_deliver, 100 * n), mk("stats-drops", gen_drops, 150 * n),
-            mk("stats-refused", gen_refused, 50 * n)]
+            mk("stats-refused", gen_refused, 50 * n), mk("stats-burst", gen_burst, 40 * n)]
 
 def _why(info):
     return info.get("why") or ""
